@@ -1,10 +1,10 @@
 #!/bin/sh
 # Offline setup: parse every specification module; nothing is fetched or built.
-cd "$(dirname "$0")" || exit 2
-set -e
-for m in spec/*.tla; do
-  java -cp /opt/veriftools/tla/tla2tools.jar:/opt/veriftools/tla/CommunityModules-deps.jar tla2sany.SANY "$m" > /tmp/verif-sany.$$ 2>&1 || { cat /tmp/verif-sany.$$; rm -f /tmp/verif-sany.$$; exit 1; }
-  if grep -q "Could not parse\|\*\*\* Errors" /tmp/verif-sany.$$; then cat /tmp/verif-sany.$$; rm -f /tmp/verif-sany.$$; exit 1; fi
+cd "$(dirname "$0")/spec" || exit 2
+tmp=$(mktemp)
+for m in *.tla; do
+  java -cp /opt/veriftools/tla/tla2tools.jar:/opt/veriftools/tla/CommunityModules-deps.jar tla2sany.SANY "$m" > "$tmp" 2>&1
+  if grep -q "Could not parse\|\*\*\* Errors\|Fatal errors" "$tmp"; then cat "$tmp"; rm -f "$tmp"; exit 1; fi
 done
-rm -f /tmp/verif-sany.$$
+rm -f "$tmp"
 /venv/bin/python -c "import lsst.daf.relation, sqlalchemy, sqlite3; print('setup ok', sqlalchemy.__version__, sqlite3.sqlite_version)"
